@@ -21,7 +21,7 @@ RULE = (
     "pattern P drawn recursively from scalars {None,bool,int>=2,non-integral float,str}, regex pool, list, set (hashable "
     "members), dict(str keys), depth<=3, <=4 children; payload V = witness(P) with 0-3 structural mutations (insert/drop/"
     "swap/alter-leaf/retype/replace-subtree) or an independent value; program `match Ev(p=P[,q=Q])` then `send Hit()`; the event "
-    "carries 0-2 unmentioned parameters. In one case of six the pattern is matched against the start arguments of an action instance (`match XAction(p=P).Finished()` on the Finished event of an action started with those arguments). Plus a small exhaustive table over leaves {2,'a'} depth<=2 and instance cases "
+    "carries 0-2 unmentioned parameters; in half of the cases the pattern is held in flow variables, in half the statement captures the event (`as $ref`) inside a loop and judges a second, different payload. In one case of six the pattern is matched against the start arguments of an action instance (`match XAction(p=P).Finished()` on the Finished event of an action started with those arguments). Plus a small exhaustive table over leaves {2,'a'} depth<=2 and instance cases "
     "($ref.Finished() of action/flow instances). Non-trivial = pattern nesting depth >= 2, or a payload obtained by a "
     "drop/swap/retype mutation (fewer elements, reordered, different container); distinct by (pattern, payload)."
 )
@@ -285,6 +285,18 @@ def _case(draw):
     case = {"form": "param", "pattern": pats, "payload": pay, "extra": extra, "mut": kinds}
     if via_action:
         case["form"] = "action_args"
+        return case
+    # the pattern may be held in flow variables (`$v_p = <P>` then `match Ev(p=$v_p)`), the statement may capture the event
+    # (`as $ref`) and sit in a loop so that the SAME statement judges a second, different event
+    case["via_var"] = draw(st.booleans())
+    if draw(st.booleans()):
+        pay2 = {}
+        for name, P in pats.items():
+            V = witness(P)
+            for _ in range(draw(st.sampled_from([0, 0, 1, 2]))):
+                V, _k = draw(mutate(V))
+            pay2[name] = V
+        case["second"] = {"payload": pay2, "extra": draw(st.dictionaries(st.sampled_from(["x", "z"]), scalar, max_size=2))}
     return case
 
 
@@ -407,11 +419,23 @@ def prop(case):
         return _instance_case(case)
     pats, pay = case["pattern"], case["payload"]
     args = ", ".join(f"{k}={smh.lit(v)}" for k, v in pats.items())
-    program = f"flow main\n  match Ev({args})\n  send Hit()\n  match Never()\n"
+    second = case.get("second")
     try:
         expected = all(k in pay and ref_match(P, pay[k]) for k, P in pats.items())
+        expected2 = second is not None and all(k in second["payload"] and ref_match(P, second["payload"][k]) for k, P in pats.items())
     except Unspecified:
         return ok(skip="unspecified: regex vs bool/None")
+    if case.get("via_var"):
+        setup = "".join(f"  $v_{k} = {smh.lit(v)}\n" for k, v in pats.items())
+        stmt_args = ", ".join(f"{k}=$v_{k}" for k in pats)
+    else:
+        setup, stmt_args = "", args
+    if second is not None:
+        # the same statement (with a capture) judges two events one after the other
+        program = f"flow main\n{setup}  while True\n    match Ev({stmt_args}) as $ref\n    send Hit()\n"
+    else:
+        program = f"flow main\n{setup}  match Ev({stmt_args})\n  send Hit()\n  match Never()\n"
+    desc = f"`match Ev({args})`" + (" (pattern held in variables)" if case.get("via_var") else "") + (" (in a loop, with `as $ref`)" if second is not None else "")
     state = smh.init(program)
     event = {"type": "Ev"}
     for k, v in pay.items():
@@ -423,13 +447,29 @@ def prop(case):
     if got != expected:
         raise Violation(
             "match-verdict",
-            f"`match Ev({args})` on event {event!r}: interpreter {'matched' if got else 'did not match'}, rule says {'match' if expected else 'no match'}",
+            f"{desc} on event {event!r}: interpreter {'matched' if got else 'did not match'}, rule says {'match' if expected else 'no match'}",
         )
+    if second is not None:
+        event2 = {"type": "Ev"}
+        for k, v in second["payload"].items():
+            event2[k] = smh.to_py(v)
+        for k, v in second["extra"].items():
+            event2[k] = v
+        got2 = "Hit" in smh.types(smh.feed(state, event2))
+        if got2 != expected2:
+            raise Violation(
+                "match-verdict-second-event",
+                f"{desc}: after a first event {event!r} ({'matched' if got else 'not matched'}), the same statement on event {event2!r}: interpreter {'matched' if got2 else 'did not match'}, rule says {'match' if expected2 else 'no match'}",
+            )
     # a second, unrelated event must never advance the statement
     d = max(depth(P) for P in pats.values())
     muts = set(case.get("mut", []))
     nt = d >= 2 or bool(muts & {"drop", "swap", "retype"})
     labels = ["match" if expected else "no-match", f"depth{d}"] + sorted(muts)
+    if case.get("via_var"):
+        labels.append("pattern-in-variable")
+    if second is not None:
+        labels.append("same-statement-second-event")
     if case["extra"]:
         labels.append("unmentioned-params")
     view = {"statement": f"match Ev({args})", "event": repr(event), "matched": got}
